@@ -175,7 +175,7 @@ fn tail_check<T: Float + FromPrimitive + Send + Sync + std::fmt::Debug>(ctx: &Ct
     ctx.outcome("tail-occupancy band checked", 1);
 }
 
-fn run_typed<T: Float + FromPrimitive + Send + Sync + std::fmt::Debug>(ctx: &Ctx, ty: &str, grid: &[usize]) {
+fn run_typed<T: Float + FromPrimitive + Send + Sync + std::fmt::Debug + 'static>(ctx: &Ctx, ty: &str, grid: &[usize]) {
     let nmax = *grid.iter().max().unwrap();
     let jobs: Vec<(usize, u64)> = grid.iter().flat_map(|d| SEEDS.iter().map(move |s| (*d, *s))).collect();
     jobs.par_iter().for_each(|(d, seed)| {
@@ -188,6 +188,40 @@ fn run_typed<T: Float + FromPrimitive + Send + Sync + std::fmt::Debug>(ctx: &Ctx
         moments_check::<T>(ctx, ty, s);
     }
     tail_check::<T>(ctx, ty);
+    // unseeded init() on DIFFERENT threads: the k-th call of one thread must not equal the k-th call of another
+    // (threads started one after the other, so the outcome does not depend on a schedule), in either float type
+    {
+        let mut outs: Vec<(usize, usize, Vec<Vec<u64>>, Vec<Vec<f64>>)> = vec![];
+        for t in 0..4usize {
+            let r = std::thread::spawn(move || (0..3).map(|_| init::<T>(3, 4)).collect::<Vec<_>>()).join();
+            if let Ok(calls) = r {
+                for (k, c) in calls.into_iter().enumerate() {
+                    let f: Vec<Vec<f64>> = c.iter().map(|r| r.iter().map(|x| x.to_f64().unwrap()).collect()).collect();
+                    outs.push((t, k, bits(&c), f));
+                }
+            }
+        }
+        let wide: Vec<Vec<Vec<f64>>> = std::thread::spawn(|| (0..3).map(|_| init::<f64>(3, 4)).collect::<Vec<_>>()).join().unwrap_or_default();
+        ctx.evals(1);
+        ctx.transitions(15);
+        'o: for i in 0..outs.len() {
+            for j in i + 1..outs.len() {
+                if outs[i].2 == outs[j].2 {
+                    ctx.violation(Violation::new("C18:init-replays(threads)", format!("init::<{ty}>(3,4): call #{} on thread {} returns the same draws as call #{} on thread {}", outs[i].1, outs[i].0, outs[j].1, outs[j].0), json!({"ty": ty, "n": 3, "d": 4, "seed": "0", "threads": true})));
+                    break 'o;
+                }
+            }
+            if ty == "f32" {
+                for w in wide.iter() {
+                    if w.iter().flatten().zip(outs[i].3.iter().flatten()).all(|(a, b)| (*a as f32) as f64 == *b) {
+                        ctx.violation(Violation::new("C18:init-replays(threads)", "init::<f64> on another thread returns an init::<f32> call's draws widened".to_string(), json!({"ty": ty, "n": 3, "d": 4, "seed": "0", "threads": true})));
+                        break 'o;
+                    }
+                }
+            }
+        }
+        ctx.outcome("unseeded init across threads: distinct", 1);
+    }
     // every single-bit flip of the base seeds 0 and 42: the 65 blocks per base are pairwise different
     for base in [0u64, 42] {
         let seeds: Vec<u64> = std::iter::once(base).chain((0..64).map(|b| base ^ (1u64 << b))).collect();
